@@ -228,6 +228,9 @@ class Interp(object):
                     continue
                 fields[f] = self.make(fty, "%s.%s" % (name, f), st)
             return self.new_cell(st, ObjCell(cls, fields))
+        if head == "Fn":
+            from .histlib import make_fn          # typed abstract callable Fn[A1,...,R]
+            return make_fn(self, args, name, st)
         raise Unsupported("type " + ty)
 
     def lst_sort(self, elemty):
@@ -455,9 +458,6 @@ class Interp(object):
                 return AND(EQ(a.present, b.present), IMP(a.present, EQ(a.t, b.t)))
             raise Unsupported("== between %r and %r" % (a, b))
         if isinstance(a, Num) and isinstance(b, Num):
-            la, lb = lit_int(a.t), lit_int(b.t)
-            if la is not None and lb is not None:
-                return TRUE if la == lb else FALSE      # two integer literals: decided here (no infeasible branch)
             return EQ(a.t, b.t)
         if isinstance(a, Bool) and isinstance(b, Bool):
             return EQ(a.t, b.t)
@@ -648,6 +648,10 @@ class Interp(object):
         return [(st, self.lookup(e.id, st))]
 
     def lookup(self, name, st):
+        if name == "out" and self.spec_mode and st.notes.get("out_untracked"):
+            # the values yielded by earlier iterations of a cut loop of a yields="Any" generator are not tracked
+            raise Unsupported("`out` after a loop of a generator with heterogeneous yields: state the clause per yield "
+                              "(at_yield / yield_count())")
         if name in st.env:
             return st.env[name]
         if self.spec_mode and name in self.contracts.spec_names:
@@ -744,6 +748,9 @@ class Interp(object):
                     # or the operands are booleans)
                     if isinstance(v, Bool) and isinstance(rv, Bool):
                         val = Bool(AND(c, rt) if is_and else OR(c, rt))
+                    elif isinstance(v, Num) and isinstance(rv, Num):
+                        # `a or b` / `a and b` of numbers IS one of the operands (not its truth value)
+                        val = self.ite_sv(c, rv, v) if is_and else self.ite_sv(c, v, rv)
                     else:
                         val = Bool(AND(c, rt) if is_and else OR(c, rt))
                         val.approx_truth_only = True
@@ -1195,6 +1202,12 @@ class Interp(object):
         nv = View(length, lambda i: view.get(ADD(l, i)))
         nv.pykind = self.kind_of_seq(s, v)
         vt = getattr(view, "term", None)
+        k0 = lit_int(self.num(lo)) if (lo is not None and not isinstance(lo, NoneV)) else None
+        if vt is not None and k0 is not None and k0 > 0 and (hi is None or isinstance(hi, NoneV)):
+            # a suffix xs[k:] of a list term: the items shifted by k (length clamped as computed above) -- an exact
+            # list term of the slice
+            nv.term = T("(mk_%s (lambda ((si Int)) (select %s (+ si %d))) %s)" % (vt.sort, self.reg.l_arr(vt).s, k0, length.s),
+                        vt.sort)
         if vt is not None and l.s == "0":
             # a prefix xs[:h] of a list term: the same items (array) with a shorter length -- an exact list term of the slice
             nv.term = self.reg.l_mk(vt.sort, self.reg.l_arr(vt), length)
@@ -1216,41 +1229,14 @@ class Interp(object):
         snap = st.copy()
         v = self.comprehension(e, snap)
         if v.items is not None:
+            for cid, cell in snap.heap.items():          # lists created by the item expressions
+                if cid not in st.heap:
+                    st.heap[cid] = cell
+            for h in snap.pc[len(st.pc):]:
+                st.pc.append(h)
             return [(st, self.new_cell(st, PyListCell(v.items)))]
-        if not self.spec_mode:
-            # symbolic length: the items are looked at lazily (and then mostly by contract clauses, where no obligation
-            # is emitted).  One generic item is evaluated here so that the safety obligations of the element expression
-            # (index in range, division by zero, callee preconditions) are emitted / its exceptions are explored.
-            q = self.reg.new("ci", "Int")
-            n = getattr(v, "guard_len", None) or v.len
-            snap.pc.append(AND(CMP("<=", I(0), q), CMP("<", q, n)))
-            sample = None
-            try:
-                sample = v.get(q)
-            finally:
-                snap.pc.pop()
-        else:
-            sample = None
-        raw_get = v.get
-
-        def quiet_get(i):
-            # later looks at an item (with a bound index variable when the list is materialised or quantified over): same
-            # value, but the obligations / exceptional outcomes of the element expression are not produced a second time
-            self.silent = getattr(self, "silent", 0) + 1
-            n_exc = len(self._exc_out)
-            try:
-                return raw_get(i)
-            finally:
-                self.silent -= 1
-                del self._exc_out[n_exc:]
-        v.get = quiet_get
-        if isinstance(sample, (Num, Bool)) or (isinstance(sample, Opaque) and sample.sort in ("V", "Obj", "Key", "Val")):
-            # items of a simple sort: the comprehension's value is a NEW list object (a heap cell with identity that can
-            # be stored, passed on and mutated), equal to the view item by item
-            from .builtins_ import sv_lst_sort
-            from .calls import materialise
-            return [(st, self.new_cell(st, LstCell(materialise(self, st, v, sv_lst_sort(self, sample)))))]
-        return [(st, v)]
+        from .histlib import symbolic_listcomp
+        return [(st, symbolic_listcomp(self, st, snap, v))]
 
     def comprehension(self, e, st):
         if len(e.generators) != 1 or e.generators[0].is_async:
@@ -1284,6 +1270,13 @@ class Interp(object):
                 if c.s != "true":
                     raise Unsupported("comprehension filter with symbolic condition over concrete list")
                 items.append(self.ev1(e.elt, s2))
+                # objects the item expression created and facts it established live on (the scratch state s2 only
+                # keeps the binding of the loop variable apart)
+                for cid, cell in s2.heap.items():
+                    if cid not in st.heap:
+                        st.heap[cid] = cell
+                for h in s2.pc[len(st.pc):]:
+                    st.pc.append(h)
             return self.items_view(items)
         if g.ifs:
             raise Unsupported("filtering comprehension over symbolic sequence")
